@@ -10,6 +10,7 @@ import builtins
 import dataclasses
 import enum
 import inspect
+import re
 import types
 import warnings
 
@@ -219,7 +220,7 @@ def has_symkey(v):
 
 
 def has_sym(v, depth=0):
-    if type(v) is Sym or type(v) is SObj or type(v) is NDArr or type(v).__module__ in ("pyvc.shapely_model", "pyvc.xmlmodel") or type(v) is SymKey \
+    if type(v) is Sym or type(v) is SObj or type(v) is NDArr or type(v).__module__ in ("pyvc.shapely_model", "pyvc.xmlmodel", "pyvc.tokstr") or type(v) is SymKey \
             or type(v).__name__ in ("ArrStr", "NumText"):
         return True
     if depth > 3:
@@ -278,6 +279,8 @@ class Interp:
             mod = getattr(f, "__module__", "") or ""
             if mod.split(".")[0] in _STDLIB_OK and not has_sym(list(args)) and not has_sym(kwargs):
                 return self.call_native(f, args, kwargs)
+            if mod == "pyvc.tokstr":  # methods of the token-string model
+                return self.call_native(f, args, kwargs)
             raise Unsupported("call of python function %s.%s without model" % (mod, f.__qualname__))
         if isinstance(f, types.MethodType):
             import logging as _logging
@@ -317,6 +320,20 @@ class Interp:
         mod = getattr(f, "__module__", None) or ""
         selfobj = getattr(f, "__self__", None)
         name = getattr(f, "__name__", repr(f))
+        if self.ctx.options.get("tokstr"):
+            from . import tokstr
+
+            if isinstance(selfobj, str) and name == "join" and len(args) == 1:
+                items = list(self.iterate(args[0]))
+                if any(tokstr.is_tok(x) for x in items):
+                    return tokstr.join(selfobj, items)
+                return selfobj.join(items)
+            if isinstance(selfobj, re.Pattern) and args and tokstr.is_tok(args[0]):
+                if name == "fullmatch" and len(args) == 1 and not kwargs:
+                    return tokstr.fullmatch(self.ctx, selfobj, args[0])
+                raise Unsupported("re.Pattern.%s on a token string" % name)
+            if isinstance(selfobj, tokstr.ModelMatch) and name in ("__getitem__", "group"):
+                return f(*args, **kwargs)
         if isinstance(selfobj, list) and name in ("remove", "index", "count", "__contains__") and args and (has_sym(args[0]) or has_sym(selfobj)):
             hits = []
             for idx, x in enumerate(selfobj):
@@ -501,8 +518,8 @@ class Interp:
         if m is not None:
             return m(self, args, kwargs)
         if isinstance(cls, type) and issubclass(cls, BaseException):
-            if is_repo_class(cls):
-                raise Unsupported("user exception class %s" % cls.__name__)
+            if is_repo_class(cls) and (isinstance(getattr(cls, "__init__", None), types.FunctionType) or isinstance(getattr(cls, "__new__", None), types.FunctionType)):
+                raise Unsupported("user exception class %s with its own constructor" % cls.__name__)
             e = PyExc(cls, tuple(args))
             return e
         if isinstance(cls, type) and issubclass(cls, enum.Enum):
@@ -1236,6 +1253,8 @@ class Interp:
         return d
 
     def ex_JoinedStr(self, node, fr):
+        if self.ctx.options.get("tokstr"):
+            return self.joined_tokstr(node, fr)
         parts = []
         symbolic = False
         for v in node.values:
@@ -1261,6 +1280,30 @@ class Interp:
                         parts.append("<?>")
         s = "".join(parts)
         return SymStr([s]) if symbolic else s
+
+    def joined_tokstr(self, node, fr):
+        """f-string as a token string (option 'tokstr'): the text of every part is kept"""
+        from . import tokstr
+        from .libmodels import _str
+
+        parts = []
+        for v in node.values:
+            if isinstance(v, ast.Constant):
+                parts.append(str(v.value))
+                continue
+            x = self.eval(v.value, fr)
+            spec = self.eval(v.format_spec, fr) if v.format_spec is not None else ""
+            if has_sym(x):
+                if spec != "" or v.conversion not in (-1, 115):
+                    raise Unsupported("format spec / conversion on a symbolic value in an f-string")
+                parts.append(_str(self, [x], {}))
+            else:
+                if v.conversion == 114:
+                    x = repr(x)
+                elif v.conversion == 115:
+                    x = str(x)
+                parts.append(format(x, spec))
+        return tokstr.TokStr(parts).simplify()
 
     def ex_FormattedValue(self, node, fr):
         return self.eval(node.value, fr)
@@ -1540,6 +1583,16 @@ class Interp:
             raise PyExc(TypeError, ("unsupported operand type(s) for %s: '%s' and '%s'" % (opcls.__name__, pytype(a).__name__, pytype(b).__name__),))
         if isinstance(a, SymStr) or isinstance(b, SymStr):
             return SymStr([str(a), str(b)])
+        if self.ctx.options.get("tokstr"):
+            from . import tokstr
+
+            if opcls is ast.Add and (tokstr.is_tok(a) or tokstr.is_tok(b)) and (isinstance(a, str) or tokstr.is_tok(a)) and (isinstance(b, str) or tokstr.is_tok(b)):
+                return tokstr.TokStr([a, b]).simplify()
+            if opcls is ast.Mod and isinstance(a, str) and (tokstr.is_tok(b) or isinstance(b, tuple) and any(tokstr.is_tok(x) for x in b)):
+                from .libmodels import _str
+
+                bb = b if isinstance(b, tuple) else (b,)
+                return tokstr.percent_format(a, tuple(_str(self, [x], {}) for x in bb))
         if opcls is ast.Mod and isinstance(a, str) and has_sym(b):
             return SymStr([a])
         try:
@@ -1780,6 +1833,15 @@ class Interp:
         if isinstance(container, (dict, set, frozenset)) and (needs_key(item) or any(type(k) is SymKey for k in container)):
             return self.dict_find(container, item) is not _MISSING
         if isinstance(container, (dict, set, frozenset)) or isinstance(container, type({}.keys())) or isinstance(container, type({}.values())):
+            if type(item).__name__ == "Atom" and type(item).__module__ == "pyvc.tokstr":
+                if item.domain is None:
+                    raise Unsupported("membership of string atom %s in a container" % item.name)
+                hits = [d in container for d in item.domain]
+                if all(hits):
+                    return True
+                if not any(hits):
+                    return False
+                raise Unsupported("membership of string atom %s: holds for some of its values only" % item.name)
             if type(item) is Sym:
                 # membership of a symbolic number in a concrete key set
                 acc = False
